@@ -39,7 +39,8 @@ def construct(fn, sig, op, buildable_type=None):
   return bt(fn, *args, **kwargs)
 
 
-def flat_oargs(cfg, flags):
+def flat_oargs(cfg, flags, sig=()):
+  kinds = {pool.pname(i + 1): q['k'] for i, q in enumerate(sig)}
   d = fdl.ordered_arguments(
       cfg,
       include_var_keyword=bool(flags & 1),
@@ -50,7 +51,7 @@ def flat_oargs(cfg, flags):
   for k, v in d.items():
     if isinstance(k, int):
       sigpart += [0, k, pool.proj_val(v)]
-    elif k.startswith('x'):
+    elif k.startswith('x') or kinds.get(k) in ('PO', 'VP', 'VK'):
       extras.append((pool.pid(k), pool.proj_val(v)))
     else:
       sigpart += [1, pool.pid(k), pool.proj_val(v)]
@@ -89,7 +90,7 @@ def do_op(cfg, sig, op):
       delattr(cfg, pool.pname(op['a']))
       return 'ok', None, []
     if name == 'oargs':
-      return 'ok', None, flat_oargs(cfg, op['a'])
+      return 'ok', None, flat_oargs(cfg, op['a'], sig)
     if name == 'dir':
       names = dir(cfg)
       return 'ok', None, sorted(pool.pid(n) for n in names)
@@ -103,7 +104,7 @@ def project(cfg, sig):
   n = npos(sig)
   pre = [0] * n
   ko = [0] * len(sig)
-  ex = [0, 0]
+  ex = [0] * (len(sig) + 2)
   va = {}
   stray = []
   hasvp = has(sig, 'VP')
@@ -130,10 +131,12 @@ def project(cfg, sig):
           pre[i - 1] = pv
         elif kind == 'KO':
           ko[i - 1] = pv
+        elif has(sig, 'VK'):
+          ex[i - 1] = pv     # a keyword named like a PO / *args / **kwargs parameter
         else:
           stray.append([k, pv])
       elif k.startswith('x') and i in (101, 102) and has(sig, 'VK'):
-        ex[i - 101] = pv
+        ex[len(sig) + i - 101] = pv
       else:
         stray.append([k, pv])
   valist = []
